@@ -52,8 +52,14 @@ zip_in_protected_header(json_t *json)
     char *z = NULL;
 
     prt = json_object_get(json, "protected");
-    if (prt && json_is_string(prt))
+    if (prt && json_is_string(prt)) {
         prt = dec = jose_b64_dec_load(prt);
+
+        /* A header we cannot read (it is malformed, or we are out of memory)
+         * does not tell us that the content is not compressed. */
+        if (!prt)
+            return true;
+    }
 
     /* Check if we have "zip" in the protected header. */
     if (json_unpack(prt, "{s:s}", "zip", &z) == -1)
